@@ -281,6 +281,16 @@ class ConcDomain(Domain):
                 return self.index(b, i, e, fr)
             if op in ("->", "*") and len(args) == 1:
                 return it.rvalue(args[0], fr)
+            if op == "=" and len(args) == 2 and not self.prog.fns(callee):
+                # implicitly defined (memberwise) copy/move assignment
+                c = it.eval(args[0], fr)
+                v = it.rvalue(args[1], fr)
+                if isinstance(c, Cell) and isinstance(v, Obj):
+                    c.set(self.clone_obj(v))
+                    return c
+                if isinstance(c, Cell):
+                    c.set(v)
+                    return c
             if op == "<<":
                 for a in args:
                     it.rvalue(a, fr)
